@@ -91,6 +91,9 @@ func (p *diffProp) RunCase(tier string, seed int64, idx int) caseResult {
 	cfgs := sampleConfigs(r, ct, f.Variants)
 	o := f.Opts
 	o.Prop = p.id
+	if tier == "thorough" && o.Repeats > 1 {
+		o.Repeats *= 2
+	}
 	out := diffCase(in, cfgs, o)
 	res := caseResult{Runs: int64(out.Runs), Discarded: out.Discarded, Nontrivial: out.Nontrivial, Stats: out.Stats, MaxRatio: out.MaxRatio, MaxTickRatio: out.MaxTickRatio}
 	if res.Stats == nil {
@@ -191,7 +194,7 @@ func init() {
 	register(&diffProp{
 		id: "C03",
 		fams: []famSpec{
-			{Name: "shadow", Quick: 1000, Thorough: 30000, Gen: famShadow, Opts: ls, Variants: pipelined},
+			{Name: "shadow", Quick: 1000, Thorough: 20000, Gen: famShadow, Opts: ls, Variants: pipelined},
 			{Name: "mixed", Quick: 200, Thorough: 5000, Gen: famMixed, Opts: ls, Variants: pipelined},
 		},
 		rule:   "family 'shadow': prefix (optionally a cache-missing load feeding the branch) . conditional branch or j/jal/jalr . 1-6 shadow instructions (ALU writes to live registers, stores hit/miss, loads incl. out-of-bounds addresses, jal link writes, div by zero) . join . suffix copying registers/bytes to observable places; 3 of 4 cases make the branch taken; every fourth case has two branches in flight (a late outer branch, a slow wrong-path register writer, a younger branch that resolves at once), half of the cases have 1-3 independent missing loads and 0-6 pad instructions ahead of the branch so that shadow instructions execute in the last cycles before it resolves; plus 200 / 5000 'mixed' programs (jumps, shared subroutines returning through jalr). Oracle: final state + lockstep + no store performed by a squashed instruction. Non-trivial/distinct as in C01.",
@@ -201,9 +204,9 @@ func init() {
 	register(&diffProp{
 		id: "C04",
 		fams: []famSpec{
-			{Name: "regdep", Quick: 500, Thorough: 20000, Gen: famRegdep, Opts: diffOpts{Lockstep: true, Repeats: 5}, Variants: pipelined},
+			{Name: "regdep", Quick: 500, Thorough: 10000, Gen: famRegdep, Opts: diffOpts{Lockstep: true, Repeats: 5}, Variants: pipelined},
 		},
-		rule:   "family 'regdep': 2-4 data registers, 8-40 instructions of chains, fans, WAW pairs, WAR pairs, slow (load) and fast writers of one register in both orders, consumers behind two in-flight writers; loads only (no stores, no branches), so every hazard is a register hazard. Each configuration is run 5 times (quick) / 20 times (thorough) and all repetitions must agree. Oracle: per-instruction lockstep + final registers.",
+		rule:   "family 'regdep': 2-4 data registers, 8-40 instructions of chains, fans, WAW pairs, WAR pairs, slow (load) and fast writers of one register in both orders, consumers behind two in-flight writers; loads only (no stores, no branches), so every hazard is a register hazard. Each configuration is run 5 times (quick) / 10 times (thorough) and all repetitions must agree. Oracle: per-instruction lockstep + final registers.",
 		assume: []string{diffAssume},
 		minEv:  []string{"forwards", "executed"},
 	})
@@ -212,7 +215,7 @@ func init() {
 	register(&diffProp{
 		id: "C05",
 		fams: []famSpec{
-			{Name: "memwalk", Quick: 300, Thorough: 10000, Gen: famMemwalk, Opts: ls, Variants: cached},
+			{Name: "memwalk", Quick: 300, Thorough: 4000, Gen: famMemwalk, Opts: ls, Variants: cached},
 		},
 		rule:   "family 'memwalk': 8-16 KB memories, strided walking loops (strides 4..260, up to 65 iterations), ping-pong over 17-24 lines, store/evict/reload, random accesses at every line-relative offset, byte/half/word mix, XOR checksum of every loaded value. Oracle: value returned by each load (lockstep) + final memory + final registers.",
 		assume: []string{diffAssume},
